@@ -76,7 +76,10 @@ class Item:
             self.close_after)
 
 
-def parse_stream(data, max_items=16):
+MAX_ITEMS = 64
+
+
+def parse_stream(data, max_items=MAX_ITEMS):
     items = []
     pos = 0
     n = len(data)
